@@ -73,6 +73,33 @@ def run(data):
                 steps.append({"setup_err": implib.errclass(ex), "msg": str(ex)[:160]})
             res.append({"steps": steps})
             continue
+        if c.get("op") == "race":
+            # several threads make the first conversion between this pair at once (tiny switch interval); every thread's result and a
+            # conversion made afterwards are reported
+            import threading
+            try:
+                q = Quantity(mk_num(c["a"]["m"]), mk_unit(c["a"]["u"])); t = mk_unit(c["b"])
+                n = c.get("threads", 8)
+                bar = threading.Barrier(n); outs = [None] * n
+                def work(i):
+                    bar.wait()
+                    try: outs[i] = implib.num(q.in_unit(t).magnitude)
+                    except Exception as ex:  # noqa
+                        outs[i] = ["err", implib.errclass(ex)]
+                old = sys.getswitchinterval(); sys.setswitchinterval(1e-6)
+                try:
+                    ths = [threading.Thread(target=work, args=(i,)) for i in range(n)]
+                    for th in ths: th.start()
+                    for th in ths: th.join()
+                finally:
+                    sys.setswitchinterval(old)
+                try: after = implib.num(q.in_unit(t).magnitude)
+                except Exception as ex:  # noqa
+                    after = ["err", implib.errclass(ex)]
+                res.append({"threads": outs, "after": after})
+            except Exception as ex:  # noqa
+                res.append({"setup_err": implib.errclass(ex), "msg": str(ex)[:160]})
+            continue
         if c.get("op") in ("eq", "ne", "lt", "le", "gt", "ge", "add", "sub"):
             import operator
             try:
